@@ -8,4 +8,8 @@ import Ymq.Props.C13
 #print axioms Ymq.C13.listed_complete
 #print axioms Ymq.C13.listed_complete_rehash
 #print axioms Ymq.C13.no_panic
+#print axioms Ymq.C13.no_panic_rehash
+#print axioms Ymq.C13.cofactor_no_panic
+#print axioms Ymq.C13.fbase_new_classes
+#print axioms Ymq.C13.log_sum_bound
 #print axioms Ymq.C13.cofactor_spec
